@@ -5,3 +5,4 @@ import MtailVerif.Props.C15
 #print axioms MtailVerif.C15.buffer_shape
 #print axioms MtailVerif.C15.every_read_is_offered_room
 #print axioms MtailVerif.C15.streams_skeletons
+#print axioms MtailVerif.C15.f_logstream_reader_skeletons
